@@ -113,6 +113,15 @@ fn check(case: &str) -> Option<String> {
             match v.as_f64() { Some(g) if g.to_bits() == (f as f64).to_bits() => {}, o => return Some(format!("as_f64({:?}f32) = {:?}", f, o)) }
             let want = v.as_f64().map_or(false, |x| x == f as f64);
             if (v == f) != want || (f == v) != want { return Some(format!("v == {:?}f32 gives {}, want {}", f, v == f, want)); }
+            // the same f32 against values that are NOT exactly that number (they only round to it in f32 precision), and against every kind of value
+            let mut others: Vec<Value> = vec![Value::from(f as f64 * (1.0 + 1e-9)), Value::from(0.1f64), Value::from(16777217u32), Value::from(16777216u32), Value::from(1e300), Value::from(-1e300), Value::from(1e-300), Value::from(0), Value::from(f64::from(f))];
+            others.extend([Value::Nil, Value::Null, Value::from(true), Value::from("0.1"), Value::symbol("x")]);
+            for o in others {
+                let want = o.as_f64().map_or(false, |x| x == f as f64);
+                for (how, got) in [("value == f32", o == f), ("f32 == value", f == o), ("&value == f32", &o == f), ("&mut value == f32", { let mut c = o.clone(); &mut c == f })] {
+                    if got != want { return Some(format!("{} with value {:?} and {:?}f32 gives {}, comparing with as_f64 gives {}", how, o, f, got, want)); }
+                }
+            }
             None
         }
         "str" => {
